@@ -815,3 +815,20 @@ Proof.
   - destruct (step_tracks_ok (base X) st f Hi C) as [T I1]. split; auto.
   - split; [left; reflexivity | exact Hi].
 Qed.
+
+(* the same with the hypotheses stated on Tracker.v's trace *)
+Lemma xtrace_eq_trace_base : forall X,
+  names_ok X = true -> fix_iv X = false -> cap_asis_or_none X ->
+  forall h st, Inv (base X) st ->
+  Forall (contract_step (base X)) (trace (base X) st h) -> Forall (cap_silent X) (trace (base X) st h) ->
+  xtrace X st h = trace (base X) st h.
+Proof.
+  intros X Hn Hiv Hcap. induction h as [|f r IH]; intros st Hi HC HS; simpl in *; auto.
+  inversion HC as [|? ? C0 CR]; subst. inversion HS as [|? ? S0 SR]; subst.
+  assert (E : xstep X st f = step (base X) st f).
+  { destruct Hi as [Hc _]. eapply xstep_silent; eauto. }
+  rewrite E. f_equal.
+  destruct (snd (step (base X) st f)) eqn:Eo; auto.
+  apply IH; auto.
+  pose proof (step_spec (base X) st f Hi (contract_valid _ _ _ _ C0)) as (I1 & _). exact I1.
+Qed.
